@@ -1769,6 +1769,11 @@ class Engine:
             result = ex
         except (BreakEx, ContinueEx):
             raise Unsupported("break/continue outside loop")
+        if getattr(self, "canaries", False) and (
+                kind != "raise" or any(
+                    exc_isinstance(result.cls, c) for c in fc.raises)):
+            # vacuity guard: `False` at a permitted exit must NOT be provable
+            self.oblige(st, "canary", line, z3.BoolVal(False), [])
         if kind == "normal":
             exits["normal"] += 1
             st.ghost["result"] = result
